@@ -3,6 +3,8 @@ package props
 import (
 	"bytes"
 	"fmt"
+	assettypes "github.com/comdex-official/comdex/x/asset/types"
+	esmtypes "github.com/comdex-official/comdex/x/esm/types"
 	"reflect"
 	"sort"
 	"strings"
@@ -232,6 +234,22 @@ func c20RoundTrip(t *testing.T, rec *ev.Rec, round int, queries []c20Query) {
 		rec.Note("state-building workload ended by a block-hook panic; round skipped")
 		return
 	}
+	// emergency-control records: the admin has used the kill switch (one app switched on and off again, in half of
+	// the rounds the other one left on), so the exported state contains kill-switch records
+	admin := c.Accts[1]
+	c.App.EsmKeeper.SetParams(c.Ctx(), esmtypes.Params{Admin: []string{admin.Addr.String()}})
+	for i, app := range u.cdpApps {
+		for _, on := range []bool{true, false} {
+			if !on && i == 1 && variant%2 == 0 {
+				continue // stays on
+			}
+			res := r.tx("kill_switch", admin, &esmtypes.MsgKillRequest{From: admin.Addr.String(), KillSwitchParams: &esmtypes.KillSwitchParams{AppId: app, BreakerEnable: on}}, fmt.Sprintf("app=%d on=%v", app, on))
+			if res.OK() {
+				rec.Count("kill_switch_records_written_before_export", 1)
+			}
+		}
+	}
+	r.block(6 * time.Second)
 	// the oracle request state as the original chain has it
 	bandOrig := func() string {
 		bo, oc := c.App.BandoracleKeeper, c.Ctx()
@@ -365,6 +383,19 @@ func c20RoundTrip(t *testing.T, rec *ev.Rec, round int, queries []c20Query) {
 	c.Tape = &sim.Tape{}
 	r.last = u.snap()
 	r.run(ev.Pick(250, 800))
+	// registry and control messages are part of "any subsequent sequence of transactions" as well
+	reg := c.Accts[len(c.Accts)-1]
+	for _, a := range []assettypes.Asset{
+		{Name: u.assets[0].Name, Denom: "ibc/verif-dup-name", Decimals: sdk.NewInt(1_000_000), IsOnChain: true}, // a name already in use
+		{Name: "VERIFNEW", Denom: u.assets[1].Denom, Decimals: sdk.NewInt(1_000_000), IsOnChain: true},          // a denom already in use
+		{Name: "VERIFNEWB", Denom: "ibc/verif-new", Decimals: sdk.NewInt(1_000_000), IsOnChain: true},           // a new asset: gets the next id
+	} {
+		r.tx("asset_add", reg, &assettypes.MsgAddAsset{Creator: reg.Addr.String(), Asset: a}, fmt.Sprintf("name=%s denom=%s", a.Name, a.Denom))
+	}
+	for _, app := range u.cdpApps {
+		r.tx("kill_switch", admin, &esmtypes.MsgKillRequest{From: admin.Addr.String(), KillSwitchParams: &esmtypes.KillSwitchParams{AppId: app, BreakerEnable: false}}, fmt.Sprintf("app=%d off", app))
+	}
+	r.run(30)
 	tape := c.Tape
 	c.Tape = nil
 	// replay on the imported chain, comparing results and typed state after every block
